@@ -19,7 +19,10 @@ import (
 	"encoding/json"
 	"fmt"
 	"math/big"
+	"os"
+	"os/exec"
 	"runtime/debug"
+	"strings"
 
 	ed "github.com/cloudflare/pat-go/ed25519"
 
@@ -430,7 +433,74 @@ func pattern(f func(i int) byte) []byte {
 	return b
 }
 
+// ---- determinism across processes ----
+//
+// "Deterministic" means a function of key, blind, context and message: the same four inputs give
+// the same signature in another process as well (nothing drawn at start-up may enter it). The
+// check runs itself as a second process that prints the signatures of a fixed list of inputs.
+
+type procP struct {
+	Index int `json:"input_index"`
+}
+
+func procInputs() [][4][]byte {
+	var out [][4][]byte
+	for i := 0; i < 6; i++ {
+		seed := bytes.Repeat([]byte{byte(0x30 + i)}, 32)
+		blind := bytes.Repeat([]byte{byte(0x80 + 7*i)}, 32)
+		ctx := []byte(fmt.Sprintf("process-independent context %d", i))
+		if i == 0 {
+			ctx = nil
+		}
+		msg := bytes.Repeat([]byte{byte(i)}, 1+40*i)
+		out = append(out, [4][]byte{seed, blind, ctx, msg})
+	}
+	return out
+}
+
+func procSigs() []string {
+	var out []string
+	for _, in := range procInputs() {
+		priv := ed.NewKeyFromSeed(in[0])
+		var sig []byte
+		if pn := mc.Catch(func() { sig = ed.BlindKeySignWithContext(priv, in[3], in[1], in[2]) }); pn != "" {
+			out = append(out, "panic")
+			continue
+		}
+		out = append(out, hx(sig))
+	}
+	return out
+}
+
+func otherProcessSigs() ([]string, error) {
+	cmd := exec.Command(os.Args[0])
+	cmd.Env = append(os.Environ(), "C15_PRINT_SIGNATURES=1")
+	b, err := cmd.Output()
+	if err != nil {
+		return nil, err
+	}
+	return strings.Fields(string(b)), nil
+}
+
+func checkProc(p procP) *mc.Viol {
+	here := procSigs()
+	there, err := otherProcessSigs()
+	if err != nil || len(there) != len(here) || p.Index < 0 || p.Index >= len(here) {
+		return nil // harness trouble is reported by the caller, never as a verdict
+	}
+	if here[p.Index] != there[p.Index] {
+		return &mc.Viol{Sig: "blind signing is not deterministic: another process signs the same key, blind, context and message differently", What: fmt.Sprintf("input %d: this process %s, second process %s", p.Index, here[p.Index], there[p.Index])}
+	}
+	return nil
+}
+
 func main() {
+	if os.Getenv("C15_PRINT_SIGNATURES") != "" {
+		for _, s := range procSigs() {
+			fmt.Println(s)
+		}
+		return
+	}
 	r := mc.Start("C15", "exploration")
 	debug.SetGCPercent(-1)
 	debug.SetMemoryLimit(1 << 30)
@@ -440,6 +510,11 @@ func main() {
 		json.Unmarshal(pj, &p)
 		v, _ := checkBlindSafe(p)
 		return v
+	})
+	r.RegisterReplay("process", func(pj json.RawMessage) *mc.Viol {
+		var p procP
+		json.Unmarshal(pj, &p)
+		return checkProc(p)
 	})
 	r.RegisterReplay("seq", func(pj json.RawMessage) *mc.Viol {
 		var p seqP
@@ -667,5 +742,19 @@ func main() {
 	}
 	r.Bulk(nSep, nSep, "separation:different-blind-or-context:different-key")
 	r.Bulk(nSame, nSame, "separation:nil-vs-empty-context:same-key")
+	// determinism across processes
+	if there, err := otherProcessSigs(); err != nil || len(there) != len(procInputs()) {
+		r.Note("the second process could not be run (%v): determinism across processes not checked", err)
+		r.NotExhaustive("second process unavailable")
+	} else {
+		for i := range procInputs() {
+			p := procP{Index: i}
+			v := checkProc(p)
+			if v != nil {
+				r.Violation("process", p, v)
+			}
+			r.Case(fmt.Sprintf("process-%d", i), true, "same signature in a second process")
+		}
+	}
 	r.Finish()
 }
